@@ -54,8 +54,10 @@ from numbers_parser.iwork import IWork
 
 PID = "C17"
 LIB_ERRORS = (FileError, FileFormatError, UnsupportedError)
-# A failure at the _store_blob seam that IWork.open's outer translation would mask is still reported
-# (DESIGN 3/C17 applies the oracle to the seam call; see the final report for the reading).
+# The statement is end to end ("no other kind of exception escapes from loading the container"): a foreign
+# exception inside _store_blob that IWork.open translates is NOT a violation. Seam results are therefore only
+# used to pick representatives that are re-run through Document(path) on a rewritten container (escalation);
+# SEAM_STRICT=True would judge the seam call itself, which demands more than the statement.
 SEAM_STRICT = False
 CASE_TIMEOUT_S = 60
 
